@@ -63,6 +63,7 @@ impl OverlappingState {
         aut_wf(aut), input.wf(), input.span.start <= input.span.end,
         ov_state_inv(aut, input, *old(state)),
         old(state).mat is None,
+        aut.kind_s() is Standard,
         pre is Some ==> input.anchored is No && aut.has_pre() && *(pre->Some_0) == aut.pre_s(),
     ensures
         ov_post(aut, input, *old(state), *final(state), res),
@@ -72,7 +73,8 @@ impl OverlappingState {
             pre is Some ==> input.anchored is No && aut.has_pre() && *(pre->Some_0) == aut.pre_s(),
             aut.valid_s(sid),
             aut.dead_s(sid) || aut.depth_s(sid) <= state.at - input.span.start,
-            input.anchored is Yes && state.at > input.span.start ==> !aut.startst_s(sid),
+            input.anchored is Yes ==> aut.areach_s(sid),
+            input.anchored is Yes && state.at > input.span.start ==> aut.dead_s(sid) || !aut.startst_s(sid),
             state.mat is None, state.next_match_index is None,
             old(state).id is None ==> aut.start_s(input.anchored) is Some,
             ov_remaining(aut, input, *old(state))
